@@ -46,6 +46,10 @@ CHECKS = {
  'C03': dict(engine='Decls', design='6 (C03)', technique='TLA+ spec Decls.tla grows a module as a list of declarations of every clause kind with attributes (TLC explores kinds x status x access x units x revisions x insertion positions) and defines ExpectedDoc; rendered modules compiled by the real MibCompiler + JsonCodeGen; the parsed JSON documents validated by TLC (DeclsTrace)',
              text='WellFormed (parses, no duplicate keys in the raw text), ExactlyDeclared (one entry per declared symbol plus imports/meta), RecordMatches (class, node type, status, max-access, units, revision dates), NoCrossWiring, for all declaration lists of length <=2 over all fifteen declaration shapes with every status/access value and of length 3 with reduced attributes, in every order; names with hyphens, Python keywords, mixed case; with and without texts.',
              note='Trusted: TLC; renderer and JSON projection; the harness table mapping revision ids to (spelling, canonical date). Scope: <=3 declarations per module; quick tier replays a seeded sample of 3000 scenarios per slice. SEQUENCE row types, CHOICE and MACRO definitions are auxiliary syntax, not symbols (DESIGN reading).'),
+
+ 'C06': dict(engine='Refs', design='6 (C06)', technique='TLA+ spec Refs.tla enumerates (TLC) tables with INDEX lists / IMPLIED / foreign indices / augmenting rows in every text order, OBJECTS-NOTIFICATIONS-VARIABLES lists, and compliance statements with every GROUP/OBJECT clause order; rendered module pairs compiled by the real MibCompiler with both generators, pysnmp modules executed by the real MibBuilder; observations validated by TLC (RefsTrace)',
+             text='NodeType, IndexFaithful (order, IMPLIED flag, defining module), AugmentsTarget, ListsFaithful, ComplianceFaithful evaluated on the JSON document and on the executed pysnmp objects (getIndexNames, getObjects, registered augmentions) for all 2579 scenarios of the model.',
+             note='Trusted: TLC; renderer; the name table mapping observed (module, object) pairs back to scenario references. Scope: 1-3 columns, lists of length <=3, <=2 MODULE parts with <=3 compliance items; one fixed companion module. The pysnmp side is observed for a seeded sample of 400 scenarios in the quick tier.'),
 }
 PENDING = 'check under construction in this round; will be claimed when its TLA+ spec, replay and trace validation exist'
 
@@ -63,6 +67,7 @@ m = {
              {'name': 'History', 'path': 'specs/History.tla', 'serves_properties': ['C12'], 'kind_free_text': 'TLA+ model of the reset discipline of parser / generator / compiler instances; HistoryTrace.tla'},
              {'name': 'OidTree', 'path': 'specs/OidTree.tla', 'serves_properties': ['C01'], 'kind_free_text': 'TLA+ builder of OID forests over module sets with ground-truth OID operator; OidTreeTrace.tla'},
              {'name': 'Decls', 'path': 'specs/Decls.tla', 'serves_properties': ['C03'], 'kind_free_text': 'TLA+ builder of declaration lists with ExpectedDoc; DeclsTrace.tla'},
+             {'name': 'Refs', 'path': 'specs/Refs.tla', 'serves_properties': ['C06'], 'kind_free_text': 'TLA+ enumeration of structural references (tables, lists, compliance) with expected targets; RefsTrace.tla'},
              {'name': 'OidIndex', 'path': 'specs/OidIndex.tla', 'serves_properties': ['C18'], 'kind_free_text': 'TLA+ model of the persistent OID->module index and its merge/compaction; OidIndexTrace.tla'}],
  'checks': [], 'not_applicable': [],
  'notes': 'All checks: cwd=/verif, ./check <id> --tier quick|thorough; exit 0 pass, 1 violation (VIOLATION line), 2 machinery failure. known_findings.json lists open findings and fixed: records.',
